@@ -4,7 +4,8 @@ SPEC = {
     'repo_srcs': ['N2kMsg.cpp', 'N2kStream.cpp', 'N2kTimer.cpp'],
     'translators': ['constants'],
     'lean_modules': ['N2k.Props.Consts.C16', 'N2k.Props.C16'], 'props_files': ['N2k/Props/Consts/C16.lean', 'N2k/Props/C16.lean'],
-    'case_start': ['addstr', 'addais', 'addvar', 'getstr1', 'getstr', 'getvar', 'rtstr', 'rtais', 'rtvar'],
+    'case_start': ['addstr', 'addais', 'addvar', 'getstr1', 'getstr', 'getvar', 'rtstr', 'rtais', 'rtvar',
+                   'addvar2', 'rtvar2', 'addbuf', 'getbuf', 'getbuf0', 'rtbuf'],
     'trusted_base': [
         "model N2k/Model/Text.lean transcribes by hand AddStr/SetBufStr, AddAISStr, AddVarStr, GetStr (both), GetVarStr, "
         "N2kRequireUnicode, N2kUTF8SeqBytes, N2kUTF8ToUCS2, N2kUTF8ToASCII, N2kUCS2ToUTF8 of N2kMsg.cpp (as fixed in the "
